@@ -122,10 +122,11 @@ def run_harness(pid, cfg, work, seed, tier, extra_env=None):
     ov = make_overlay(work)
     outs = []
     ok = True
-    for pkg, test in cfg["pkgs"]:
+    pkgs = list(cfg["pkgs"]) + list(cfg.get("extra_pkgs", {}).get(tier, []))
+    for pkg, test in pkgs:
         to = cfg.get("go_timeout", {}).get(tier, 600 if tier == "quick" else 3000)
-        cmd = [GO, "test", "-tags", "verif", "-overlay", ov, "-count=1", "-vet=off", "-timeout", f"{to}s",
-               "-run", f"^{test}$", pkg]
+        cmd = [GO, "test"] + cfg.get("go_flags", {}).get(tier, []) + ["-tags", "verif", "-overlay", ov, "-count=1", "-vet=off",
+               "-timeout", f"{to}s", "-run", f"^{test}$", pkg]
         rc, out, dt = run(cmd, cwd=REPO, env=go_env(work, seed, tier, extra_env), timeout=to + 60)
         outs.append((pkg, test, rc, out, dt))
         if rc != 0:
